@@ -34,7 +34,7 @@ PROPS["C02"] = dict(
     technique="Lean 4 theorems (exact pixel test; routing = hot pixels met, in travel order, by level induction) on a hand-written model + exhaustive/differential correspondence with pointindex",
     module="Texel.Properties.C02",
     translators=["arith", "lineint", "mathhelp", "quadrants"],
-    theorems=["Texel.GenLineInt.gen_lineIntersects", "Texel.C02.C02_pixel_test_source", "Texel.GenMathhelp.gen_cmpProducts", "Texel.GenQuadrants.gen_findIntersectingQuadrants", "Texel.GenArith.gen_containsPoint", "Texel.GenArith.gen_up", "Texel.GenArith.gen_extent", "Texel.C02.C02_pixel_test", "Texel.C02.C02_hot_closed", "Texel.C02.C02_routing", "Texel.C02.C02_routing_index",
+    theorems=["Texel.GenLineInt.gen_lineIntersects", "Texel.C02.C02_pixel_test_source", "Texel.GenMathhelp.gen_cmpProducts", "Texel.GenQuadrants.gen_findIntersectingQuadrants", "Texel.GenRoute.snapLevelSrc_eq", "Texel.C02.C02_routing_source", "Texel.GenArith.gen_containsPoint", "Texel.GenArith.gen_up", "Texel.GenArith.gen_extent", "Texel.C02.C02_pixel_test", "Texel.C02.C02_hot_closed", "Texel.C02.C02_routing", "Texel.C02.C02_routing_index",
               "Texel.C02.C02_nodup", "Texel.C02.C02_routed_nonempty", "Texel.C02.C02_second_sentence_ring", "Texel.C02.C02_second_sentence_polygon"],
     streams=["li", "li-large", "route", "route-random", "snap", "model-functional-vs-reference"],
     trusted=["Model.Geom/Model.Route are hand-written mirrors of containsPoint, lineIntersects, findIntersectingQuadrants, snapClosestPoints, InsertPoint, insertCoord; "
@@ -64,7 +64,7 @@ def snapprop(pid, level, module, theorems, streams, technique, level_text, level
 FUNC = "model-functional-vs-reference"
 
 snapprop("C09", "proof", "Texel.Properties.C09",
-    ["Texel.C09.C09_accept_iff", "Texel.C09.C09_outside_rejected", "Texel.C09.C09_snapped_only_inside", "Texel.C09.F2_witness", "Texel.GenArith.gen_deepestAddr", "Texel.GenMathhelp.gen_floorDiv"],
+    ["Texel.C09.C09_accept_iff", "Texel.C09.C09_outside_rejected", "Texel.C09.C09_snapped_only_inside", "Texel.C09.F2_witness", "Texel.GenArith.gen_deepestAddr", "Texel.GenMathhelp.gen_floorDiv", "Texel.C09.C09_accept_iff_source"],
     ["snap-outside", "snap-outside-extent", "addr"],
     "Lean 4 theorems (a vertex gets an address iff inside the half-open extent; any outside vertex makes SnapPolygon fail / return empty) + differential correspondence at 1-unit distances",
     "Theorems for every grid (any origin, resolution, depth), every polygon and every distance: deepestAddr accepts exactly the half-open extent (floor division), and one outside vertex decides the whole call "
@@ -100,7 +100,7 @@ snapprop("C07", "proof", "Texel.Properties.C07",
     "Trusted: Lean kernel; the model is a function by construction, so determinism of the code itself rests on the correspondence and the repetition runs; the model's exact integer area2 stands for the float orientation test of go-spatial (float seam, compared on every case).")
 
 snapprop("C03", "proof", "Texel.Properties.C03",
-    ["Texel.C03.C03_output_is_pixel_of_level", "Texel.C03.C03_index_in_range", "Texel.C03.C03_centre_in_pixel", "Texel.C03.C03_centre_exact", "Texel.C03.C03_centre_deepest", "Texel.C03.C03_round", "Texel.C03.C03_deviation", "Texel.C03.C03_pixel_size", "Texel.C03.C03_pixel_is_sixteenth_of_cell", "Texel.GenArith.gen_span", "Texel.GenArith.gen_centroid", "Texel.GenArith.gen_level"],
+    ["Texel.C03.C03_output_is_pixel_of_level", "Texel.C03.C03_index_in_range", "Texel.C03.C03_centre_in_pixel", "Texel.C03.C03_centre_exact", "Texel.C03.C03_centre_deepest", "Texel.C03.C03_round", "Texel.C03.C03_deviation", "Texel.C03.C03_pixel_size", "Texel.C03.C03_pixel_is_sixteenth_of_cell", "Texel.GenArith.gen_span", "Texel.GenArith.gen_centroid", "Texel.GenArith.gen_level", "Texel.C03.C03_centre_source"],
     ["snap", "quad"],
     "Lean 4 theorems on the integer centre formula (in its pixel, exact middle, equals the ideal centre on round extents, within the reported deviation otherwise) + bit-exact centre canonicalisation of every returned float",
     "Theorems: every vertex of everything snapPolygonF returns for level l stands for a pixel of that level (indices below 2^l); for every grid/level/pixel the coordinate handed out is inside its pixel, exactly its middle above the deepest level, equal to minX+(k+1/2)*XSpan/2^l when the extent divides evenly, and otherwise left of the ideal centre by less than XSpan mod 2^depth "
@@ -137,13 +137,14 @@ snapprop("C04", "other", "Texel.Properties.C04",
     extra_trusted=["edge distance and coverage are explored with exact oracles, not proved"])
 
 snapprop("C18", "other", "Texel.Properties.C18",
-    ["Texel.C18.C18_boundary_exists", "Texel.C18.C18_no_vertex_invented", "Texel.C18.C18_split_preserves_area", "Texel.C18.C18_flags_exact", "Texel.C18.C18_dedup_subset"],
+    ["Texel.C18.C18_boundary_exists", "Texel.C18.C18_no_vertex_invented", "Texel.C18.C18_split_preserves_area", "Texel.C18.C18_flags_exact", "Texel.C18.C18_dedup_subset", "Texel.GenHits.gen_hits", "Texel.GenHits.gen_isHitF"],
     ["snap", FUNC],
     "partial Lean 4 proof (routed boundary exists; no returned vertex is invented: each is a routed pixel; ring splitting cuts a ring into rings without repetition whose signed areas add up to the ring's; spike removal only removes) + exact routed-run / hole-containment / signed-area oracle on cases whose model chains visit each centre at most twice",
     "Partial proof + verified-oracle exploration: the routed boundary (the model's chains, routing proved exact) is computed for every case; for (polygon, level) pairs with max visits <= 2 the three conclusions are checked exactly on the implementation's output. "
     "Proved for every polygon: vertices are routed pixels (C18_no_vertex_invented); splitRing neither invents nor loses area and returns rings that visit no vertex twice (C18_split_preserves_area, from the stack invariant). The cancellation argument of kmpDeduplicate under max visits <= 2 (output edges are routed runs, area preserved by spike removal) is not proved.",
     "kmp_removes_cancelling_pairs is open; the oracle decides each generated case.",
-    extra_trusted=["conclusions (a),(b),(c) are explored with exact oracles, not proved"])
+    extra_trusted=["conclusions (a),(b),(c) are explored with exact oracles, not proved"],
+    translators=["hits"])
 
 PIPE_TRUSTED = [
     "Model.Pipe is a hand-written state machine of processing.ProcessFeatures (unbuffered channels as joint steps, two wait groups); its concurrency skeleton is compared by decide with the skeleton trgen skel (go/ast, ~200 lines) extracts from processing.go and gpkg.go on every run",
